@@ -120,7 +120,7 @@ class Context:
     def floor(self, rid: str, count: int, minimum: int, what: str):
         """Fail closed when a rule matches fewer instances than confirmed by hand."""
         self.rules[rid].setdefault("floors", []).append({"what": what, "count": count, "min": minimum})
-        if count < minimum:
+        if count < minimum and not any(f.rule == rid for f in self.findings):
             raise AnalysisError(
                 f"{self.prop}-{rid}: only {count} {what} found, expected at least {minimum} "
                 "(anchor vanished or idiom not recognised)"
